@@ -1273,15 +1273,15 @@ def _generators(vk, fam):
         B.close()
     elif fam == "grid":
         vk.real(fem.Grid)
-        B = Bounded(vk, "Grid: oriented cells tile the box of the coordinate vectors", "<= 4 non-uniform increasing coordinates per axis, dims 1..3")
+        B = Bounded(vk, "Grid: oriented cells tile the box of the coordinate vectors", "<= 4 non-uniform increasing coordinates per axis, dims 1..3, indexing 'ij' and 'xy'")
         coords = {2: np.array([-1.0, 0.5]), 3: np.array([0.0, 1.0, 4.0]), 4: np.array([0.3, 0.7, 2.0, 2.25])}
-        for dim in (1, 2, 3):
-            for n in itertools.product(N, repeat=dim):
+        for dim, n, indexing in ((d, n, ix) for d in (1, 2, 3) for n in itertools.product(N, repeat=d) for ix in ("ij", "xy")):
+            if True:
                 xi = [coords[k] + 0.1 * i for i, k in enumerate(n)]
-                m = fem.Grid(*xi)
+                m = fem.Grid(*xi, indexing=indexing)
                 ori, used, V = _native_inv(m)
                 meas = np.prod([x[-1] - x[0] for x in xi])
-                inp = f"Grid(lengths={n})"
+                inp = f"Grid(lengths={n}, indexing={indexing!r})"
                 B.check(ori and used, inp, "orientation / unused points")
                 B.check(abs(V.sum() - meas) < 1e-12 * max(1, meas), inp, f"sum of volumes {V.sum()} != {meas}")
                 pts = {tuple(p) for p in np.round(m.points, 12)}
